@@ -40,9 +40,26 @@ def install_host(h):
     return saved
 
 
+def install_ilp32():
+    """the C data model is host state too: a host whose `long` has 32 bits (Windows, 32-bit systems)"""
+    import ctypes
+    from pykdebugparser.trace_handlers import dyld, fsystem, mach, perf, trace, turnstile
+    ns = types.SimpleNamespace(**{k: getattr(ctypes, k) for k in dir(ctypes) if not k.startswith('__')})
+    ns.c_long, ns.c_ulong = ctypes.c_int32, ctypes.c_uint32
+    ns.c_ssize_t, ns.c_size_t = ctypes.c_int32, ctypes.c_uint32
+    for mod in (bsd, dyld, fsystem, mach, perf, trace, turnstile):
+        if hasattr(mod, 'ctypes'):
+            mod.ctypes = ns
+        for nm in ('c_long', 'c_ulong', 'c_ssize_t', 'c_size_t'):
+            if hasattr(mod, nm):
+                setattr(mod, nm, getattr(ns, nm))
+
+
 def main():
     req = json.load(sys.stdin)
     saved = None
+    if req.get('ilp32'):
+        install_ilp32()
     if req.get('host'):
         saved = install_host(req['host'])
     try:
